@@ -110,21 +110,21 @@ fn oracle(c: &Case, acc: &mut Acc) -> CaseResult {
                 let mut ad_altered = false;
                 for k in 0..*idx {
                     let (w, r) = if k % 2 == 0 { (&mut pair.i, &mut pair.r) } else { (&mut pair.r, &mut pair.i) };
-                    let mut m = hs_write(w, b"earlier-payload", 65535).map_err(|x| Fail::new(format!("{what}: prefix write: {}", e(&x))))?;
+                    let mut m = hs_write(w, b"earlier-payload", 65535).map_err(|x| Fail::setup(format!("{what}: prefix write: {}", e(&x))))?;
                     if attack && c.alter == Alter::Ad && k + 1 == *idx && !lay[k].payload_encrypted && !ad_altered {
                         // unauthenticated payload of an earlier message: changes h only
                         let l = m.len();
                         m[l - 1] ^= 1;
                         ad_altered = true;
                     }
-                    hs_read(r, &m, 65535).map_err(|x| Fail::new(format!("{what}: prefix read {k}: {}", e(&x))))?;
+                    hs_read(r, &m, 65535).map_err(|x| Fail::setup(format!("{what}: prefix read {k}: {}", e(&x))))?;
                 }
                 if attack && c.alter == Alter::Ad && !ad_altered {
                     acc.skip("no earlier unauthenticated payload to alter (AD-only alteration not constructible)");
                     return Ok(());
                 }
                 let (w, r) = if idx % 2 == 0 { (&mut pair.i, &mut pair.r) } else { (&mut pair.r, &mut pair.i) };
-                let mut msg = hs_write(w, &plain, 65535).map_err(|x| Fail::new(format!("{what}: write: {}", e(&x))))?;
+                let mut msg = hs_write(w, &plain, 65535).map_err(|x| Fail::setup(format!("{what}: write: {}", e(&x))))?;
                 let payload_off = lay[*idx].overhead - 16;
                 if attack {
                     alter_msg(&mut msg, payload_off);
@@ -155,9 +155,9 @@ fn oracle(c: &Case, acc: &mut Acc) -> CaseResult {
             }
             let pair = drive_to(&spec, 2)?;
             if c.path == Path::Stateful {
-                let mut ti = pair.i.into_transport_mode().map_err(|x| Fail::new(e(&x)))?;
-                let mut tr = pair.r.into_transport_mode().map_err(|x| Fail::new(e(&x)))?;
-                let genuine = t_write(&mut ti, &plain, plain.len() + 16).map_err(|x| Fail::new(e(&x)))?;
+                let mut ti = pair.i.into_transport_mode().map_err(|x| Fail::setup(e(&x)))?;
+                let mut tr = pair.r.into_transport_mode().map_err(|x| Fail::setup(e(&x)))?;
+                let genuine = t_write(&mut ti, &plain, plain.len() + 16).map_err(|x| Fail::setup(e(&x)))?;
                 let mut msg = genuine.clone();
                 alter_msg(&mut msg, 0);
                 let mut buf = prefill(bufsize(msg.len()));
@@ -169,11 +169,11 @@ fn oracle(c: &Case, acc: &mut Acc) -> CaseResult {
                 let p = t_read(&mut tr, &genuine, plain.len()).map_err(|x| Fail::new(format!("{what}: control read failed: {}", e(&x))))?;
                 ensure!(p == plain, "{what}: control payload");
             } else {
-                let ti = pair.i.into_stateless_transport_mode().map_err(|x| Fail::new(e(&x)))?;
-                let tr = pair.r.into_stateless_transport_mode().map_err(|x| Fail::new(e(&x)))?;
+                let ti = pair.i.into_stateless_transport_mode().map_err(|x| Fail::setup(e(&x)))?;
+                let tr = pair.r.into_stateless_transport_mode().map_err(|x| Fail::setup(e(&x)))?;
                 let n = c.seed | 1 << 40;
                 let n = if n == u64::MAX { 5 } else { n };
-                let genuine = sl_write(&ti, n, &plain, plain.len() + 16).map_err(|x| Fail::new(e(&x)))?;
+                let genuine = sl_write(&ti, n, &plain, plain.len() + 16).map_err(|x| Fail::setup(e(&x)))?;
                 let mut msg = genuine.clone();
                 alter_msg(&mut msg, 0);
                 let mut buf = prefill(bufsize(msg.len()));
